@@ -142,6 +142,30 @@ Theorem schedule_once_internal : forall (popped : list (N * N) -> list (N * N)),
 Proof. exact ProofsSched.schedule_once_internal. Qed.
 Print Assumptions schedule_once_internal.
 
+
+(* The pipe contract used above, made explicit on a bounded-bag model of LockLessMultiReadPipe:
+   a write either FAILS (pipe full; SplitAndAddTask then runs the piece inline on the writer) or stores
+   the piece, and a stored piece is later handed to exactly one reader.  Then a burst of schedule() calls
+   of any length from one thread, with no reader popping meanwhile (all workers busy), loses and
+   duplicates nothing, and never holds more than [cap] pieces.  The harness scenario "parkburst"
+   (workers parked, 300 / 1000 > 256 pending closures) is what exercises this contract on the real pipe. *)
+Theorem schedule_internal_burst_exactly_once : forall (popped : list N -> list N),
+  (forall w, Permutation (popped w) w) ->
+  forall cap ids, Permutation (burst_executed popped cap ids) ids.
+Proof. exact burst_exactly_once. Qed.
+Print Assumptions schedule_internal_burst_exactly_once.
+
+Theorem schedule_internal_burst_bounded : forall cap ids,
+  (length (fst (burst (pipe_write cap) [] [] ids)) <= cap)%nat.
+Proof. intros cap ids. apply (proj2 (burst_accounts cap ids [] [])). simpl. lia. Qed.
+Print Assumptions schedule_internal_burst_bounded.
+
+(* a pipe whose "full" test is wrong (overwrites the oldest unread entry) loses a closure *)
+Example schedule_internal_overwriting_pipe_refuted :
+  let r := burst (pipe_write_overwriting 2) [] [] [1; 2; 3]%N in
+  count_occ N.eq_dec (snd r ++ fst r) 1%N = 0%nat.
+Proof. exact overwriting_pipe_loses. Qed.
+
 (* StartThreads creates nt-1 workers: someone other than the caller can pop iff nt >= 2 *)
 Definition worker_threads (nt : N) : N := (nt - 1)%N.
 Theorem schedule_internal_progress_partial : forall nt, (2 <= nt)%N -> (1 <= worker_threads nt)%N.
